@@ -42,8 +42,8 @@ def cases(tier, seed):
         M = R.choice([1, 2, 3, 6]) if N <= 4 else R.choice([1, 2, 3])
         out.append(dict(t="hist", fmt=fmt, mode=mode, N=N, M=M, layout=R.choice(["disjoint", "disjoint", "common"]),
                         pos=[R.choice([0, 1, 3]), 0, 0], maxdelay=R.choice([0.0, 0.005, 0.02]), seed=R.randrange(1 << 30),
-                        prior=R.choice(["none", "none", "file"]), mixfmt=(i % 3 == 0), longhold=(i % 5 == 2)))
-    for i in range(3 if tier == "quick" else 40):
+                        prior=R.choice(["none", "none", "file"]), mixfmt=(i % 3 == 0), longhold=(i % 5 == 2), pause_after_release=(i % 4 == 1)))
+    for i in range(8 if tier == "quick" else 120):
         out.append(dict(t="sampling", fmt=R.choice(["npy", "fits", "png"]), depth=R.choice([1, 1, 2]), seed=R.randrange(1 << 30), parts=R.choice([2, 3])))
     for s in out:
         s["pos"] = s.get("pos") and [s["pos"][0], R.randrange(1 << s["pos"][0]), R.randrange(1 << s["pos"][0])]
@@ -135,6 +135,21 @@ def _updater(spec, base, idx, go_path):
 
     if spec.get("longhold"):
         _dilate_monotonic_clocks(300.0)
+    if spec.get("pause_after_release"):
+        # a process can be descheduled between any two statements: here right after the lock library released the lock,
+        # i.e. before whatever the caller of the library does next
+        import filelock
+
+        _orig_release = filelock.BaseFileLock.release
+        _R2 = random.Random("%d/rel/%d" % (spec["seed"], idx))
+
+        def release(self, *a, **k):
+            r = _orig_release(self, *a, **k)
+            if _R2.random() < 0.6:
+                time.sleep(0.03 + 0.07 * _R2.random())
+            return r
+
+        filelock.BaseFileLock.release = release
 
     pio = PyramidIO(base, default_format=spec["fmt"])
     pos = Pos(*spec["pos"])
@@ -335,6 +350,7 @@ def case_sampling(spec, workdir):
 
     def make_sampler(k):
         def s(lon, lat):
+            time.sleep(0.01 + 0.02 * random.random())  # a slow source widens every read-modify-write window
             if fmt == "png":
                 out = np.zeros(lon.shape + (4,), np.uint8)
                 cols = np.arange(lon.shape[1]) % parts == k
